@@ -13,11 +13,13 @@ import (
 	"encoding/json"
 	"fmt"
 	"net"
+	"net/http"
 	"strings"
 	"sync"
 	"sync/atomic"
 	"time"
 
+	"github.com/gorilla/websocket"
 	lime "github.com/takenet/lime-go"
 	"verif/harness/hs"
 )
@@ -99,10 +101,71 @@ type rawServer struct {
 	r      *rec
 	tls    bool
 	mu     sync.Mutex
+	wmu    sync.Mutex
 	n      int
 	cur    net.Conn // what the session is written to (the TLS layer when upgraded)
 	curRaw net.Conn // the TCP connection underneath
+	curWS  *websocket.Conn
 	curN   int
+}
+
+// ServeHTTP: the websocket flavour of the scripted server (one text message per envelope)
+func (s *rawServer) ServeHTTP(w http.ResponseWriter, r *http.Request) {
+	up := websocket.Upgrader{Subprotocols: []string{"lime"}, CheckOrigin: func(*http.Request) bool { return true }}
+	ws, err := up.Upgrade(w, r, nil)
+	if err != nil {
+		return
+	}
+	ws.SetReadDeadline(time.Now().Add(3 * time.Second))
+	var first map[string]interface{}
+	if err := ws.ReadJSON(&first); err != nil {
+		ws.Close()
+		return
+	}
+	ws.SetReadDeadline(time.Time{})
+	s.mu.Lock()
+	s.n++
+	n := s.n
+	s.mu.Unlock()
+	sid := fmt.Sprintf("5e551041-0000-4000-8000-%012x", n)
+	if err := ws.WriteMessage(websocket.TextMessage, []byte(fmt.Sprintf(`{"id":%q,"from":"postmaster@example.com/srv","to":"cli@example.com/i","state":"established"}`, sid))); err != nil {
+		ws.Close()
+		return
+	}
+	s.mu.Lock()
+	s.cur, s.curRaw, s.curWS, s.curN = ws.UnderlyingConn(), ws.UnderlyingConn(), ws, n
+	s.mu.Unlock()
+	s.r.log(Event{K: "session", N: n})
+	for {
+		var m map[string]interface{}
+		if err := ws.ReadJSON(&m); err != nil {
+			return
+		}
+		if id, _ := m["id"].(string); strings.HasPrefix(id, "u-") {
+			s.r.log(Event{K: "recv", Tag: id, N: n})
+		}
+		if st, _ := m["state"].(string); st == "finishing" {
+			s.write([]byte(fmt.Sprintf(`{"id":%q,"from":"postmaster@example.com/srv","state":"finished"}`, sid)))
+			ws.Close()
+			return
+		}
+	}
+}
+
+// write sends one envelope (or anything else) on the current session
+func (s *rawServer) write(b []byte) error {
+	s.mu.Lock()
+	c, ws := s.cur, s.curWS
+	s.mu.Unlock()
+	if ws != nil {
+		s.wmu.Lock()
+		defer s.wmu.Unlock()
+		ws.SetWriteDeadline(time.Now().Add(time.Second))
+		return ws.WriteMessage(websocket.TextMessage, b)
+	}
+	c.SetWriteDeadline(time.Now().Add(time.Second))
+	_, err := c.Write(append(b, '\n'))
+	return err
 }
 
 func (s *rawServer) serve() {
@@ -190,9 +253,7 @@ func (s *rawServer) push(tag string) bool {
 		return false
 	}
 	s.r.log(Event{K: "pushed", Tag: tag, N: n})
-	c.SetWriteDeadline(time.Now().Add(time.Second))
-	_, err := c.Write([]byte(fmt.Sprintf(`{"id":%q,"type":"text/plain","content":"hello"}`+"\n", tag)))
-	return err == nil
+	return s.write([]byte(fmt.Sprintf(`{"id":%q,"type":"text/plain","content":"hello"}`, tag))) == nil
 }
 
 func (s *rawServer) inject(fault string) {
@@ -207,9 +268,9 @@ func (s *rawServer) inject(fault string) {
 	sid := fmt.Sprintf("5e551041-0000-4000-8000-%012x", n)
 	switch fault {
 	case "finish":
-		c.Write([]byte(fmt.Sprintf(`{"id":%q,"from":"postmaster@example.com/srv","state":"finished"}`+"\n", sid)))
+		s.write([]byte(fmt.Sprintf(`{"id":%q,"from":"postmaster@example.com/srv","state":"finished"}`, sid)))
 	case "fail":
-		c.Write([]byte(fmt.Sprintf(`{"id":%q,"from":"postmaster@example.com/srv","state":"failed","reason":{"code":1,"description":"gone"}}`+"\n", sid)))
+		s.write([]byte(fmt.Sprintf(`{"id":%q,"from":"postmaster@example.com/srv","state":"failed","reason":{"code":1,"description":"gone"}}`, sid)))
 	case "abrupt":
 		raw.Close()
 	case "reset": // the peer's kernel answers with RST: the client reads ECONNRESET, not EOF
@@ -222,11 +283,11 @@ func (s *rawServer) inject(fault string) {
 			tc.CloseWrite()
 		}
 	case "garbage":
-		c.Write([]byte("}{ not json\n"))
+		s.write([]byte("}{ not json"))
 	case "junk":
-		c.Write([]byte(`{"foo":1}` + "\n"))
+		s.write([]byte(`{"foo":1}`))
 	case "oversized":
-		c.Write([]byte(`{"id":"big","type":"text/plain","content":"` + strings.Repeat("x", 20000) + `"}` + "\n"))
+		s.write([]byte(`{"id":"big","type":"text/plain","content":"` + strings.Repeat("x", 20000) + `"}`))
 	}
 }
 
@@ -252,13 +313,22 @@ func Replay(c Case) Result {
 	}
 	defer ln.Close()
 	srv := &rawServer{ln: ln, r: r, tls: c.Cfg.Transport == "tls"}
-	go srv.serve()
+	if c.Cfg.Transport == "ws" {
+		hsrv := &http.Server{Handler: srv}
+		go hsrv.Serve(ln)
+		defer hsrv.Close()
+	} else {
+		go srv.serve()
+	}
 	addr := ln.Addr()
 
 	cfg := lime.NewClientConfig()
 	cfg.Node = lime.Node{Identity: lime.Identity{Name: "cli", Domain: "example.com"}, Instance: "i"}
 	cfg.ChannelBufferSize = 4
 	cfg.NewTransport = func(ctx context.Context) (lime.Transport, error) {
+		if c.Cfg.Transport == "ws" {
+			return lime.DialWebsocket(ctx, "ws://"+addr.String()+"/", nil, nil)
+		}
 		return lime.DialTcp(ctx, addr, &lime.TCPConfig{ReadLimit: 4096, TLSConfig: hs.ClientTLS})
 	}
 	if c.Cfg.Transport == "tls" {
